@@ -516,7 +516,13 @@ class SymNp:
             if isinstance(a, AVec) or isinstance(b, AVec):
                 raise Undecided('np.where on abstract vectors')
             return tm.ite(c, tm.lift(a), tm.lift(b))
-        return self._real.where(c, a, b)
+        if isinstance(a, T) or isinstance(b, T):
+            return a if bool(c) else b
+        r = self._real.where(c, a, b)
+        if getattr(r, 'ndim', None) == 0 and not any(isinstance(v, T) for v in (a, b)):
+            # a concrete 0-d jax array does not multiply with a term (its __mul__ raises instead of deferring): hand back the python scalar
+            return r.item()
+        return r
 
     def isnan(self, a):
         if isinstance(a, T):
